@@ -51,7 +51,6 @@ fn get_dependencies_from_type(
             _ => {}
         },
     };
-    seen.remove(&tp.id().to_string());
 }
 
 fn get_enum_dependencies(
